@@ -223,6 +223,36 @@ class FactDB:
                 cands = [m for m in (members or []) if "d" in m and pred(((m.get("t") or {}).get("c") or ""))]
                 if len(cands) == 1 and cands[0]["n"] != canon and not any(m["n"] == canon for m in (r.get("fields") or []) + (r.get("svars") or [])):
                     ren[cands[0]["d"]] = (cands[0]["n"], canon)
+        # a bookkeeping member wrapped, together with its lock, into a small rlbox:: class of its own (`detail::key_registry keys;` holding
+        # the vector and the mutex, with add/remove members): the roles are identified by type inside the wrapper, the wrapper's fields
+        # are presented as fields of the enclosing class and `this->wrapper.member` as `this->member` (Engine.flatten_nested_state)
+        self.wrapper_members = set()
+        splice = []
+        by_id = {r["id"]: r for r in self.records}
+        for r in self.records:
+            for rec, kind, pred, canon in self.ROLES:
+                if r["n"] != rec or kind != "field":
+                    continue
+                flds = r.get("fields") or []
+                if any(pred(((m.get("t") or {}).get("c") or "")) for m in flds) or any(m["n"] == canon and (m.get("t") or {}).get("k") != "rec" for m in flds):
+                    continue
+                hits = []
+                for m in flds:
+                    mt = m.get("t") or {}
+                    inner = by_id.get(mt.get("rid")) if mt.get("k") == "rec" and (mt.get("rn") or "").startswith("rlbox::") else None
+                    if inner is None or inner["n"] == rec:
+                        continue
+                    cs = [x for x in (inner.get("fields") or []) if "d" in x and pred(((x.get("t") or {}).get("c") or ""))]
+                    if len(cs) == 1:
+                        hits.append((m, inner, cs[0]))
+                if len(hits) == 1:
+                    m, inner, x = hits[0]
+                    if x["n"] != canon:
+                        ren[x["d"]] = (x["n"], canon)
+                    self.wrapper_members.add(m["n"])
+                    if (r["id"], m["n"]) not in [(a["id"], b) for a, b, _ in splice]:
+                        splice.append((r, m["n"], inner))
+        self._splice = splice
         # a static bookkeeping member that was moved out of its class into a helper struct (rlbox::detail::registry<T>::entries):
         # the same role, identified by type, in whichever rlbox:: record now holds it - if exactly one (record, member) does
         for rec, kind, pred, canon in self.ROLES:
@@ -302,8 +332,16 @@ class FactDB:
                     ren[m["d"]] = (m["n"], role)
         self.storage_names = sorted(names)
         self.renamed_members = sorted({"%s->%s" % v for v in ren.values()})
-        if not ren:
-            return
+        if ren:
+            self._apply_renames(ren)
+        import copy
+        for r, outer, inner in self._splice:
+            out = []
+            for m in r.get("fields") or []:
+                out += copy.deepcopy(inner.get("fields") or []) if m["n"] == outer and (m.get("t") or {}).get("k") == "rec" else [m]
+            r["fields"] = out
+
+    def _apply_renames(self, ren):
 
         def fix(x, key, old, new_):
             v = x.get(key)
